@@ -46,6 +46,13 @@ namespace vu::pos
    }
 
    template< typename Input >
+   std::size_t line_ops( Input& in )
+   {
+      const auto p = in.position();
+      return std::size_t( in.at( p ) - in.begin_of_line( p ) ) + std::size_t( in.end_of_line( p ) - in.at( p ) ) + in.line_at( p ).size();
+   }
+
+   template< typename Input >
    bool rematches( Input& in )
    {
       return normal< rematch< plus< alpha >, string< 'a', 'b' >, one< 'a' > > >::template match< apply_mode::action, rewind_mode::required, nothing, normal >( in );
@@ -54,7 +61,7 @@ namespace vu::pos
    template< typename Eol >
    std::size_t lazy_and_buffer( memory_input< tracking_mode::lazy, Eol >& a, buffer_input< Reader, Eol, std::string, 64 >& b )
    {
-      return input_ops( a ) + input_ops( b ) + rematches( a );
+      return input_ops( a ) + input_ops( b ) + rematches( a ) + line_ops( a );
    }
 
    inline std::size_t all_inputs( memory_input< tracking_mode::lazy, eol::lf >& a1, buffer_input< Reader, eol::lf, std::string, 64 >& b1, memory_input< tracking_mode::lazy, eol::cr >& a2, buffer_input< Reader, eol::cr, std::string, 64 >& b2,
@@ -66,6 +73,6 @@ namespace vu::pos
 
    inline std::size_t all_pos( In_lf& a, In_cr& b, In_crlf& c, In_lf_crlf& d, In_cr_crlf& e )
    {
-      return all_rules( a ) + all_rules( b ) + all_rules( c ) + all_rules( d ) + all_rules( e ) + input_ops( a ) + input_ops( b ) + input_ops( c ) + input_ops( d ) + input_ops( e ) + rematches( d );
+      return all_rules( a ) + all_rules( b ) + all_rules( c ) + all_rules( d ) + all_rules( e ) + input_ops( a ) + input_ops( b ) + input_ops( c ) + input_ops( d ) + input_ops( e ) + rematches( d ) + line_ops( a ) + line_ops( b ) + line_ops( c ) + line_ops( d ) + line_ops( e );
    }
 }  // namespace vu::pos
